@@ -125,7 +125,8 @@ fn pick_sidings(r: &mut Rng, n_main: usize, p: f64, forbid: &[usize]) -> Vec<usi
     v
 }
 
-pub fn gen_scen(r: &mut Rng, max_trains: usize, big: bool) -> Scen {
+pub fn gen_scen(r: &mut Rng, max_trains: usize) -> Scen {
+    let big = r.chance(0.33);
     let mut net = vec![Link::default()];
     let kind = *r.pick(&["line", "diamond", "diamond", "diamond", "junction"]);
     let short = r.chance(0.25);
@@ -331,7 +332,8 @@ fn raw_plan_ok(net: &[Link], t: &Tbl) -> bool {
         for w in t[l].windows(2) {
             let (a, b) = (&w[0], &w[1]);
             if !(a.ce + sp <= b.ae || a.cx <= b.ae) { return false; }
-            if !(a.cx + sp <= b.ax) { return false; }
+            if !(a.cx + sp <= b.ax || b.ax == b.cx) { return false; }
+            if !(a.cx <= b.cx) { return false; }
         }
         for m in conf(net, l) { if m >= t.len() { return false; } for a in &t[l] { for b in &t[m] { if !disjoint(a, b) { return false; } } } }
     }
@@ -390,13 +392,20 @@ fn oracle_table(ctx: &mut Ctx, case: &Case, phase: &str, k: usize, t: &Tbl, ob: 
                 else { ctx.fail("C04", "headway_entry", &wh, format!("train {} enters link {} at {} only {} s after the tail of train {} entered it ({}), headway {} s, leader still in the link", b.tr, l, b.ae, b.ae - a.ce, a.tr, a.ce, sp),
                         case.input(serde_json::json!({"snapshot": k, "phase": phase, "a": auth_json(l, i - 1, &a), "b": auth_json(l, i, &b)}))); }
             }
-            ctx.checked("C04", "headway_exit");
-            if !(a.cx + sp <= b.ax) {
-                ctx.fail("C04", "headway_exit", &wh, format!("front of train {} leaves link {} at {} less than {} s after the tail of train {} left it ({})", b.tr, l, b.ax, sp, a.tr, a.cx),
-                    case.input(serde_json::json!({"snapshot": k, "phase": phase, "a": auth_json(l, i - 1, &a), "b": auth_json(l, i, &b)})));
+            // an authority closed by the early-exit branch (train terminated on this link) has arrive_exit == clear_exit: its front never left
+            let terminated = b.ax == b.cx && b.cx.is_finite();
+            if terminated { ctx.count("c04.headway_exit.follower_terminated_on_link"); } else {
+                ctx.checked("C04", "headway_exit");
+                if !(a.cx + sp <= b.ax) {
+                    ctx.fail("C04", "headway_exit", &wh, format!("front of train {} leaves link {} at {} less than {} s after the tail of train {} left it ({})", b.tr, l, b.ax, sp, a.tr, a.cx),
+                        case.input(serde_json::json!({"snapshot": k, "phase": phase, "a": auth_json(l, i - 1, &a), "b": auth_json(l, i, &b)})));
+                }
             }
             ctx.checked("C04", "no_order_change");
-            if !(a.ae <= b.ae && a.ax <= b.ax && a.ce <= b.ce && a.cx <= b.cx) {
+            if terminated && a.cx > b.cx {
+                ctx.fail("C04", "early_exit_behind_leader", &wh, format!("train {} terminates on link {} at {} while train {} ahead of it has not cleared the link (clear_exit {}): the follower's authority is closed before the leader's, so the last authority of the link no longer carries the latest clear time and the link is released early", b.tr, l, b.cx, a.tr, a.cx),
+                    case.input(serde_json::json!({"snapshot": k, "phase": phase, "a": auth_json(l, i - 1, &a), "b": auth_json(l, i, &b)})));
+            } else if !(a.ae <= b.ae && (a.ax <= b.ax || terminated) && a.ce <= b.ce && a.cx <= b.cx) {
                 ctx.fail("C04", "no_order_change", &wh, format!("trains {} then {} entered link {} in this order but their events are not in the same order: entry {} / {}, front exit {} / {}, tail entry {} / {}, tail exit {} / {}", a.tr, b.tr, l, a.ae, b.ae, a.ax, b.ax, a.ce, b.ce, a.cx, b.cx),
                     case.input(serde_json::json!({"snapshot": k, "phase": phase, "a": auth_json(l, i - 1, &a), "b": auth_json(l, i, &b)})));
             }
@@ -419,7 +428,10 @@ fn oracle_table(ctx: &mut Ctx, case: &Case, phase: &str, k: usize, t: &Tbl, ob: 
         let holders: Vec<u32> = (1..t.len()).filter(|&y| conf(net, y).contains(&x)).flat_map(|y| t[y].iter().skip(1).filter(|a| a.cx == INF).map(|a| a.tr).collect::<Vec<_>>()).collect();
         ctx.checked("C04", "blocked_covers_held");
         if !holders.is_empty() && blocked[x] == 0 {
-            ctx.fail("C04", "blocked_covers_held", &wh, format!("link {} is not marked blocked although train(s) {:?} hold a link that conflicts with it", x, holders), case.input(serde_json::json!({"snapshot": k, "phase": phase, "link": x})));
+            // released by a follower that terminated behind a train still in the link?
+            let early = (1..t.len()).filter(|&y| conf(net, y).contains(&x)).any(|y| t[y].last().map(|a| a.cx.is_finite()).unwrap_or(false) && t[y].iter().skip(1).any(|a| a.cx == INF));
+            let clause = if early { "early_exit_unblocks_held_link" } else { "blocked_covers_held" };
+            ctx.fail("C04", clause, &wh, format!("link {} is not marked blocked although train(s) {:?} hold a link that conflicts with it{}", x, holders, if early { " (the last authority of that link belongs to a train that terminated behind them)" } else { "" }), case.input(serde_json::json!({"snapshot": k, "phase": phase, "link": x})));
         }
         if holders.is_empty() && blocked[x] != 0 { ctx.count("c04.blocked.stale_block"); }
         else if blocked[x] != 0 && !holders.contains(&blocked[x]) { ctx.count("c04.blocked.other_train_named"); }
@@ -470,7 +482,7 @@ fn oracle_plan(ctx: &mut Ctx, case: &Case, plan: &[Vec<(usize, f64)>]) {
 
 // ---------------------------------------------------------------- driving the real code
 
-fn run_scen(ctx: &mut Ctx, sc: &Scen, seed: u64) {
+fn run_scen(ctx: &mut Ctx, sc: &Scen, seed: u64, verbose: bool) {
     let id = format!("scen{:x}", seed);
     let case = Case { sc, seed, id: id.clone() };
     ctx.count(&format!("c04.scen.{}", sc.kind.split('-').next().unwrap()));
@@ -500,6 +512,7 @@ fn run_scen(ctx: &mut Ctx, sc: &Scen, seed: u64) {
     };
     let mut plan_t = std::collections::HashMap::new();
     if let Some(p) = &plan { for (ti, v) in p.iter().enumerate() { for (l, t) in v { plan_t.insert(((ti + 1) as u32, *l), *t); } } }
+    if verbose { dump(sc, &snaps, &plan); eprintln!("result: {}", match &res { Some(Ok(_)) => "ok".to_string(), Some(Err(e)) => format!("err {:?}", e).chars().take(600).collect(), None => format!("panic {}", last_panic()) }); }
     if snaps.is_empty() { return; }
     let n_links = sc.net.len();
     let fin_tbl = snaps.last().unwrap().tbl.clone();
@@ -560,13 +573,38 @@ fn stats_gate(ctx: &mut Ctx, net: &[Link], t: &Tbl, ops: &[Op]) {
     }
 }
 
+pub fn dump(sc: &Scen, snaps: &[Snap], plan: &Option<Vec<Vec<(usize, f64)>>>) {
+    eprintln!("=== {} trains={}", sc.kind, sc.trains.len());
+    for (i, l) in sc.net.iter().enumerate().skip(1) { eprintln!("  link {} len {} flip {} next {} alt {} prev {} palt {} lock {:?}", i, l.length.value, l.idx_flip.idx(), l.idx_next.idx(), l.idx_next_alt.idx(), l.idx_prev.idx(), l.idx_prev_alt.idx(), l.link_idxs_lockout.iter().map(|x| x.idx()).collect::<Vec<_>>()); }
+    for (t, r) in sc.trains.iter().zip(&sc.routes) { eprintln!("  train len {} depart {} orig {} dest {}", t.state.length.value, t.state.time.value, r.2, r.3); }
+    let mut prev: Option<&Snap> = None;
+    for (k, s) in snaps.iter().enumerate() {
+        eprintln!("-- {} {}", k, s.phase);
+        for (li, v) in s.tbl.iter().enumerate() {
+            if prev.map(|p| p.tbl[li] == *v && p.ob[li] == s.ob[li]).unwrap_or(false) { continue; }
+            for (ai, a) in v.iter().enumerate().skip(1) { eprintln!("   L{} [{}] tr {} ae {:.1} ax {:.1} ce {:.1} cx {:.1} ob {:.1}", li, ai, a.tr, a.ae, a.ax, a.ce, a.cx, s.ob[li][ai]); }
+        }
+        eprintln!("   blocked {:?}", s.blocked.iter().enumerate().filter(|x| *x.1 != 0).collect::<Vec<_>>());
+        prev = Some(s);
+    }
+    if let Some(p) = plan { for v in p { eprintln!("  plan {:?}", v); } }
+}
+
 pub fn run(ctx: &mut Ctx, r: &mut Rng, tier: &str) {
+    // replay of one scenario: C04_SEED=<hex scenario_seed of a finding>
+    if let Ok(sd) = std::env::var("C04_SEED") {
+        let seed = u64::from_str_radix(sd.trim_start_matches("0x"), 16).unwrap();
+        let mut rr = Rng(seed);
+        let sc = gen_scen(&mut rr, 8);
+        run_scen(ctx, &sc, seed, true);
+        return;
+    }
     let n: usize = std::env::var("C04_N").ok().and_then(|x| x.parse().ok()).unwrap_or(if tier == "thorough" { 6000 } else { 400 });
-    for k in 0..n {
+    for _ in 0..n {
         let mut rr = r.fork();
         let seed = rr.0;
-        let sc = gen_scen(&mut rr, 8, k % 3 == 2);
+        let sc = gen_scen(&mut rr, 8);
         if sc.net.validate().is_err() { ctx.count("c04.net_invalid"); continue; }
-        run_scen(ctx, &sc, seed);
+        run_scen(ctx, &sc, seed, false);
     }
 }
